@@ -251,8 +251,10 @@ def make_world(case):
     class BkgPDFp(StubPDF, IsBackgroundPDF):
         """parameter dependent background density b0_e * exp(cb * p) with p a GLOBAL fit parameter,
         read from a trial-data field that depends on global fit parameters (recomputed by evaluate)"""
-        def __init__(self, b0field, cb, gname, fixed_val):
+        def __init__(self, b0field, cb, gname, fixed_val, lname):
             StubPDF.__init__(self, 'bkgp')
+            # the local parameter name through which PDFRatioProduct recognises the dependence
+            self._param_set = type('PSet', (), {'params_name_list': [lname]})()
             self.b0field, self.cb, self.gname, self.fixed_val = b0field, cb, gname, fixed_val
 
         def get_pd(self, tdm, params_recarray=None, tl=None):
@@ -298,12 +300,12 @@ def make_world(case):
         if sp is not None:
             sigp = SigPDFp(local_name(sp['pn']), sp['s0'], sp['cs'])
             gname = global_name(sp['gname'])
-            bkgp = BkgPDFp('b0p', sp['cb'], gname, sp['fixed_val'])
+            bkgp = BkgPDFp('b0p', sp['cb'], gname, sp['fixed_val'], local_name(sp['bn']))
             if sp['fixed_val'] is None:
-                tdm.add_data_field(
-                    'bgp', lambda tdm, shg_mgr, pmm, global_fitparams_dict=None, gname=gname: np.full(
-                        (tdm.n_selected_events,), float(global_fitparams_dict[gname])),
-                    global_fitparam_names=[gname])
+                def _mk(gn):
+                    return lambda tdm, shg_mgr, pmm, global_fitparams_dict=None: np.full(
+                        (tdm.n_selected_events,), float(global_fitparams_dict[gn]))
+                tdm.add_data_field('bgp', _mk(gname), global_fitparam_names=[gname])
             sobp = SigOverBkgPDFRatio(sig_pdf=sigp, bkg_pdf=bkgp, same_axes=False,
                                       zero_bkg_ratio_value=sp.get('zero_bkg', 1.0), cfg=cfg)
             ratio = PDFRatioProduct(ratio, sobp, cfg=cfg)
